@@ -326,3 +326,376 @@ VARIANTS += [
  dict(name='merge-returns-rebuilt-descriptor', file=N, expect='flagged(merge/)',
       find='\tdesc.Annotations = annotations\n\treturn desc, nil\n', replace='\treturn ocispec.Descriptor{MediaType: desc.MediaType, Digest: desc.Digest, Size: desc.Size, Annotations: annotations}, nil\n'),
 ]
+
+# ---- second pass: shapes accepted by CLASS (facts decided across helpers, roles carried by arguments) ----
+
+DIGEST_INNER = '\t\tif _, err := digest.Parse(artifactRef); err == nil {\n'
+
+def with_fn(fn):
+    # add an unexported function in front of validateSignArguments
+    return (N, VSA, fn + '\n' + VSA)
+
+IS_DIGEST = '''func isDigestText(s string) bool {
+	_, err := digest.Parse(s)
+	return err == nil
+}
+'''
+IS_DIGEST_GUARD = '''func isDigestText(s string) bool {
+	if _, err := digest.Parse(s); err != nil {
+		return false
+	}
+	return true
+}
+'''
+IS_DIGEST_INVERTED = '''func isDigestText(s string) bool {
+	_, err := digest.Parse(s)
+	return err != nil
+}
+'''
+IS_TAG = '''func isTagText(s string) bool {
+	return !isDigestText(s)
+}
+''' + IS_DIGEST
+
+def check_pinned(arm2='err == nil', ret2='fmt.Errorf("user input digest %s does not match the resolved digest %s", ref, resolved.Digest)'):
+    return '''func checkPinned(resolved ocispec.Descriptor, ref string) error {
+	if ref == resolved.Digest.String() {
+		return nil
+	}
+	if _, err := digest.Parse(ref); %s {
+		return %s
+	}
+	return nil
+}
+''' % (arm2, ret2)
+
+PINNED_CALL = '''	if err := checkPinned(artifactManifestDesc, artifactRef); err != nil {
+		return ocispec.Descriptor{}, ocispec.Descriptor{}, err
+	}
+'''
+
+def parsed_compare(cmp='d != artifactManifestDesc.Digest'):
+    return '''	if d, err := digest.Parse(artifactRef); err == nil && %s {
+		return ocispec.Descriptor{}, ocispec.Descriptor{}, fmt.Errorf("user input digest %%s does not match the resolved digest %%s", artifactRef, artifactManifestDesc.Digest)
+	}
+''' % cmp
+
+VARIANTS += [
+ # T1 (predicate computed by a helper): "is a digest" decided by a bool helper, in three spellings
+ dict(name='digest-predicate-helper', expect='silent', edits=[(N, DIGEST_INNER, '\t\tif isDigestText(artifactRef) {\n'), with_fn(IS_DIGEST)]),
+ dict(name='digest-predicate-helper-guard-clauses', expect='silent', edits=[(N, DIGEST_INNER, '\t\tif isDigestText(artifactRef) {\n'), with_fn(IS_DIGEST_GUARD)]),
+ dict(name='digest-predicate-helper-negated', expect='silent', edits=[(N, DIGEST_INNER, '\t\tif !isTagText(artifactRef) {\n'), with_fn(IS_TAG)]),
+ dict(name='digest-predicate-helper-inverted', expect='flagged(gate/digest-pinning)', edits=[(N, DIGEST_INNER, '\t\tif isDigestText(artifactRef) {\n'), with_fn(IS_DIGEST_INVERTED)]),
+ dict(name='digest-predicate-helper-on-input', expect='flagged(gate/digest-pinning)', edits=[(N, DIGEST_INNER, '\t\tif isDigestText(signOpts.ArtifactReference) {\n'), with_fn(IS_DIGEST)]),
+ dict(name='digest-predicate-helper-tag-polarity-lost', expect='flagged(gate/digest-pinning)', edits=[(N, DIGEST_INNER, '\t\tif isTagText(artifactRef) {\n'), with_fn(IS_TAG)]),
+ # T2 (validator helper): the whole pinning test in a helper that is handed the descriptor and the string
+ dict(name='digest-validator-helper', expect='silent', edits=[(N, DIGEST_WHOLE, PINNED_CALL), with_fn(check_pinned())]),
+ dict(name='digest-validator-helper-arguments-crossed', expect='flagged(gate/digest-pinning)',
+      edits=[(N, DIGEST_WHOLE, PINNED_CALL.replace('artifactRef', 'signOpts.ArtifactReference')), with_fn(check_pinned())]),
+ dict(name='digest-validator-helper-mismatch-accepted', expect='flagged(gate/digest-pinning)', edits=[(N, DIGEST_WHOLE, PINNED_CALL), with_fn(check_pinned(ret2='nil'))]),
+ dict(name='digest-validator-helper-conditional', expect='flagged(gate/digest-pinning)', edits=[(N, DIGEST_WHOLE, PINNED_CALL), with_fn(check_pinned(arm2='err == nil && resolved.Size > 0'))]),
+ dict(name='digest-validator-helper-verdict-ignored', expect='flagged(gate/digest-pinning)',
+      edits=[(N, DIGEST_WHOLE, '\tif err := checkPinned(artifactManifestDesc, artifactRef); err != nil {\n\t\tlogger.Warn(err)\n\t}\n'), with_fn(check_pinned())]),
+ # T3 (value recomputed): the digest digest.Parse returned is the string itself
+ dict(name='digest-parsed-value-compared', file=N, expect='silent', find=DIGEST_WHOLE, replace=parsed_compare()),
+ dict(name='digest-parsed-algorithm-compared', file=N, expect='flagged(gate/digest-pinning)', find=DIGEST_WHOLE, replace=parsed_compare('d.Algorithm() != artifactManifestDesc.Digest.Algorithm()')),
+]
+
+# per-pair gates of the merge behind helpers
+CHECK_KEY_CALL = '''		if err := checkMetadataKey(%s, %s); err != nil {
+			return desc, err
+		}
+		annotations[k] = v
+'''
+
+def check_key_fn(lst='reservedAnnotationPrefixes', existing_ret='fmt.Errorf("error adding user metadata: metadata key %v is already present in the target artifact", key)', order=('key string', 'present map[string]string')):
+    return '''func checkMetadataKey(%s, %s) error {
+	for _, reservedPrefix := range %s {
+		if strings.HasPrefix(key, reservedPrefix) {
+			return fmt.Errorf("error adding user metadata: metadata key %%v has reserved prefix %%v", key, reservedPrefix)
+		}
+	}
+	if _, ok := present[key]; ok {
+		return %s
+	}
+	return nil
+}
+''' % (order[0], order[1], lst, existing_ret)
+
+def key_validator(name, expect, a='k', b='desc.Annotations', **kw):
+    return dict(name=name, expect=expect, edits=[(N, RESERVED_LOOP + EXISTING, CHECK_KEY_CALL % (a, b)), with_fn(check_key_fn(**kw))])
+
+def reserved_lookup_fn(miss='i < 0'):
+    return '''func reservedPrefixOf(key string) (string, bool) {
+	i := slices.IndexFunc(reservedAnnotationPrefixes[:], func(prefix string) bool {
+		return strings.HasPrefix(key, prefix)
+	})
+	if %s {
+		return "", false
+	}
+	return reservedAnnotationPrefixes[i], true
+}
+''' % miss
+
+def reserved_lookup_call(arg='k', cond='ok'):
+    return '''		if reservedPrefix, ok := reservedPrefixOf(%s); %s {
+			return desc, fmt.Errorf("error adding user metadata: metadata key %%v has reserved prefix %%v", k, reservedPrefix)
+		}
+''' % (arg, cond)
+
+IS_RESERVED = '''func isReservedKey(key string) bool {
+	for _, reservedPrefix := range reservedAnnotationPrefixes {
+		if strings.HasPrefix(key, reservedPrefix) {
+			return true
+		}
+	}
+	return false
+}
+'''
+IS_RESERVED_EARLY_FALSE = '''func isReservedKey(key string) bool {
+	for _, reservedPrefix := range reservedAnnotationPrefixes {
+		if !strings.HasPrefix(key, reservedPrefix) {
+			return false
+		}
+	}
+	return true
+}
+'''
+IS_RESERVED_CALL = '''		if isReservedKey(k) {
+			return desc, fmt.Errorf("error adding user metadata: metadata key %v has reserved prefix", k)
+		}
+'''
+HAS_KEY = '''func hasAnnotation(m map[string]string, key string) bool {
+	_, ok := m[key]
+	return ok
+}
+'''
+EXISTING_IF = '\t\tif _, ok := desc.Annotations[k]; ok {\n'
+
+VARIANTS += [
+ # T4 (validator helper for the pair): both per-pair gates in one helper returning an error
+ key_validator('merge-key-validator-helper', 'silent'),
+ key_validator('merge-key-validator-helper-params-reordered', 'silent', a='desc.Annotations', b='k', order=('present map[string]string', 'key string')),
+ key_validator('merge-key-validator-helper-handed-value', 'flagged(merge/)', a='v'),
+ key_validator('merge-key-validator-helper-handed-metadata', 'flagged(merge/existing-key)', b='userMetadata'),
+ key_validator('merge-key-validator-helper-existing-accepted', 'flagged(merge/existing-key)', existing_ret='nil'),
+ key_validator('merge-key-validator-helper-tail-of-list', 'flagged(merge/reserved-prefix)', lst='reservedAnnotationPrefixes[1:]'),
+ dict(name='merge-key-validator-helper-verdict-ignored', expect='flagged(merge/)',
+      edits=[(N, RESERVED_LOOP + EXISTING, '\t\tif err := checkMetadataKey(k, desc.Annotations); err != nil {\n\t\t\tlogger.Warn(err)\n\t\t}\n\t\tannotations[k] = v\n'), with_fn(check_key_fn())]),
+ # T5 (lookup helper returning (value, ok)) and (predicate helper)
+ dict(name='reserved-lookup-helper', expect='silent', edits=[imp('slices'), (N, RESERVED_LOOP, reserved_lookup_call()), with_fn(reserved_lookup_fn())]),
+ dict(name='reserved-lookup-helper-first-element-passes', expect='flagged(merge/reserved-prefix)', edits=[imp('slices'), (N, RESERVED_LOOP, reserved_lookup_call()), with_fn(reserved_lookup_fn('i <= 0'))]),
+ dict(name='reserved-lookup-helper-handed-value', expect='flagged(merge/reserved-prefix)', edits=[imp('slices'), (N, RESERVED_LOOP, reserved_lookup_call(arg='v')), with_fn(reserved_lookup_fn())]),
+ dict(name='reserved-lookup-helper-polarity-lost', expect='flagged(merge/reserved-prefix)', edits=[imp('slices'), (N, RESERVED_LOOP, reserved_lookup_call(cond='!ok')), with_fn(reserved_lookup_fn())]),
+ dict(name='reserved-predicate-helper', expect='silent', edits=[(N, RESERVED_LOOP, IS_RESERVED_CALL), with_fn(IS_RESERVED)]),
+ dict(name='reserved-predicate-helper-answers-early', expect='flagged(merge/reserved-prefix)', edits=[(N, RESERVED_LOOP, IS_RESERVED_CALL), with_fn(IS_RESERVED_EARLY_FALSE)]),
+ dict(name='existing-key-predicate-helper', expect='silent', edits=[(N, EXISTING_IF, '\t\tif hasAnnotation(desc.Annotations, k) {\n'), with_fn(HAS_KEY)]),
+ dict(name='existing-key-predicate-helper-wrong-map', expect='flagged(merge/existing-key)', edits=[(N, EXISTING_IF, '\t\tif hasAnnotation(userMetadata, k) && v == "" {\n'), with_fn(HAS_KEY)]),
+ dict(name='existing-key-predicate-helper-handed-value', expect='flagged(merge/existing-key)', edits=[(N, EXISTING_IF, '\t\tif hasAnnotation(desc.Annotations, v) {\n'), with_fn(HAS_KEY)]),
+ # T6 (lookup in a superset): the key is looked up in the union map once the annotations were copied into it
+ dict(name='existing-key-looked-up-in-union', file=N, expect='silent', find=EXISTING_IF, replace='\t\tif _, ok := annotations[k]; ok {\n'),
+ dict(name='existing-key-looked-up-in-union-maps-copy', expect='silent', edits=[imp('maps'), (N, COPY_LOOP, '\tmaps.Copy(annotations, desc.Annotations)\n'), (N, EXISTING_IF, '\t\tif _, ok := annotations[k]; ok {\n')]),
+ dict(name='existing-key-looked-up-in-union-before-copy', expect='flagged(merge/existing-key)',
+      edits=[(N, COPY_LOOP, ''), (N, EXISTING_IF, '\t\tif _, ok := annotations[k]; ok {\n'), (N, '\tdesc.Annotations = annotations\n\treturn desc, nil\n', COPY_LOOP + '\tdesc.Annotations = annotations\n\treturn desc, nil\n')]),
+ dict(name='existing-key-looked-up-in-union-with-delete', expect='flagged(merge/)',
+      edits=[(N, COPY_LOOP, COPY_LOOP + '\tdelete(annotations, "org.opencontainers.image.created")\n'), (N, EXISTING_IF, '\t\tif _, ok := annotations[k]; ok {\n')]),
+]
+
+# validate everything, then build
+SPLIT_HEAD = '''	for k, v := range userMetadata {
+		logger.Debugf("Adding metadata %v=%v to annotations", k, v)
+''' + RESERVED_LOOP + '''		if _, ok := desc.Annotations[k]; ok {
+			return desc, fmt.Errorf("error adding user metadata: metadata key %v is already present in the target artifact", k)
+		}
+'''
+MERGE_BODY = MERGE_FN[MERGE_FN.index('\t// never write into the annotations map'):]
+MAKE_LINE = '\tannotations := make(map[string]string, len(desc.Annotations)+len(userMetadata))\n'
+BULK_COPY = '\tmaps.Copy(annotations, userMetadata)\n'
+BULK_LOOP = '\tfor k, v := range userMetadata {\n\t\tannotations[k] = v\n\t}\n'
+TAIL = '\tdesc.Annotations = annotations\n\treturn desc, nil\n}\n'
+
+def split(name, expect, bulk=BULK_COPY, inloop='', guard=None, head=SPLIT_HEAD, first='validate'):
+    loop = head + inloop + '\t}\n'
+    if guard:
+        loop = '\tif %s {\n%s\t}\n' % (guard, loop)
+    if first == 'validate':
+        body = loop + MAKE_LINE + COPY_LOOP + bulk + TAIL
+    else:  # the union map is built first and the keys are looked up in it
+        body = MAKE_LINE + COPY_LOOP + loop.replace('desc.Annotations[k]', 'annotations[k]') + bulk + TAIL
+    return dict(name=name, expect=expect, edits=[imp('maps'), (N, MERGE_BODY, body)])
+
+VARIANTS += [
+ # T7 (loop split into phases): every pair is examined first, the pairs are taken over in bulk afterwards
+ split('merge-split-then-maps-copy', 'silent'),
+ split('merge-split-then-copy-loop', 'silent', bulk=BULK_LOOP + '\t_ = maps.Copy[map[string]string, map[string]string]\n'),
+ split('merge-split-union-first', 'silent', first='union'),
+ split('merge-split-examination-left-early', 'flagged(merge/fresh-union)', inloop='\t\tif v == "" {\n\t\t\tbreak\n\t\t}\n'),
+ split('merge-split-examination-conditional', 'flagged(merge/fresh-union)', guard='len(userMetadata) < 8'),
+ split('merge-split-copy-loop-examination-left-early', 'flagged(merge/fresh-union)', bulk=BULK_LOOP + '\t_ = maps.Copy[map[string]string, map[string]string]\n', inloop='\t\tif v == "" {\n\t\t\tbreak\n\t\t}\n'),
+ split('merge-split-existing-key-not-examined', 'flagged(merge/existing-key)', head=SPLIT_HEAD[:SPLIT_HEAD.index('\t\tif _, ok := desc.Annotations[k]; ok {')] + '\t\t_ = v\n'),
+ split('merge-split-bulk-from-annotations-twice', 'flagged(merge/fresh-union)', bulk='\tmaps.Copy(annotations, desc.Annotations)\n'),
+]
+
+# the generator behind a wrapper; the thumbprint list built by a helper
+GEN_BLOCK = '''	var pluginAnnotations map[string]string
+	if signerAnts, ok := signer.(signerAnnotation); ok {
+		pluginAnnotations = signerAnts.PluginAnnotations()
+	}
+	logger.Debug("Generating annotation")
+	annotations, err := generateAnnotations(signerInfo, pluginAnnotations)
+	if err != nil {
+		return ocispec.Descriptor{}, ocispec.Descriptor{}, err
+	}
+	logger.Debugf("Generated annotations: %+v", annotations)
+'''
+
+def wrapper_call(args='ctx, signer, signerInfo'):
+    return '''	annotations, err := manifestAnnotations(%s)
+	if err != nil {
+		return ocispec.Descriptor{}, ocispec.Descriptor{}, err
+	}
+''' % args
+
+def wrapper_fn(params='ctx context.Context, signer Signer, signerInfo *signature.SignerInfo', si='signerInfo', onerr='return nil, err', after=''):
+    return '''func manifestAnnotations(%s) (map[string]string, error) {
+	logger := log.GetLogger(ctx)
+	var pluginAnnotations map[string]string
+	if signerAnts, ok := signer.(signerAnnotation); ok {
+		pluginAnnotations = signerAnts.PluginAnnotations()
+	}
+	logger.Debug("Generating annotation")
+	annotations, err := generateAnnotations(%s, pluginAnnotations)
+	if err != nil {
+		%s
+	}
+%s	logger.Debugf("Generated annotations: %%+v", annotations)
+	return annotations, nil
+}
+''' % (params, si, onerr, after)
+
+def wrapper(name, expect, call=None, **kw):
+    return dict(name=name, expect=expect, edits=[(N, GEN_BLOCK, call or wrapper_call()), with_fn(wrapper_fn(**kw))])
+
+THUMB_LOOP = '''	var thumbprints []string
+	for _, cert := range signerInfo.CertificateChain {
+		checkSum := sha256.Sum256(cert.Raw)
+		thumbprints = append(thumbprints, hex.EncodeToString(checkSum[:]))
+	}
+	val, err := json.Marshal(thumbprints)
+'''
+
+def thumbs_fn(loop='for i := range certChain', elem='certChain[i].Raw', init='var thumbprints []string', put='thumbprints = append(thumbprints, hex.EncodeToString(checkSum[:]))'):
+    return '''func chainThumbprints(certChain []*x509.Certificate) []string {
+	%s
+	%s {
+		checkSum := sha256.Sum256(%s)
+		%s
+	}
+	return thumbprints
+}
+''' % (init, loop, elem, put)
+
+def thumbs(name, expect, arg='signerInfo.CertificateChain', **kw):
+    return dict(name=name, expect=expect, edits=[(N, THUMB_LOOP, '\tval, err := json.Marshal(chainThumbprints(%s))\n' % arg), with_fn(thumbs_fn(**kw))])
+
+def prealloc(put='thumbprints[i] = hex.EncodeToString(checkSum[:])', n='len(signerInfo.CertificateChain)'):
+    return '''	thumbprints := make([]string, %s)
+	for i, cert := range signerInfo.CertificateChain {
+		checkSum := sha256.Sum256(cert.Raw)
+		%s
+	}
+	val, err := json.Marshal(thumbprints)
+''' % (n, put)
+
+VARIANTS += [
+ # T8 (extract-helper at another boundary): the generator call, the signer probe and the logging in a wrapper
+ wrapper('generator-behind-wrapper', 'silent'),
+ wrapper('generator-behind-wrapper-params-reordered', 'silent', call=wrapper_call('ctx, signerInfo, signer'), params='ctx context.Context, signerInfo *signature.SignerInfo, signer Signer'),
+ wrapper('generator-behind-wrapper-error-swallowed', 'flagged(annotations/delivered)', onerr='logger.Warn(err)'),
+ wrapper('generator-behind-wrapper-signer-annotations-copied-after', 'flagged(annotations/)', after='\tfor k, v := range pluginAnnotations {\n\t\tannotations[k] = v\n\t}\n'),
+ wrapper('generator-behind-wrapper-created-overwritten', 'flagged(annotations/)', after='\tannotations[ocispec.AnnotationCreated] = time.Now().Format(time.RFC3339)\n'),
+ wrapper('generator-behind-wrapper-other-signer-info', 'flagged(annotations/)', si='&signature.SignerInfo{SignedAttributes: signerInfo.SignedAttributes}'),
+ dict(name='generator-behind-wrapper-thumbprint-of-tbs', expect='flagged(annotations/thumbprints)', edits=[(N, GEN_BLOCK, wrapper_call()), with_fn(wrapper_fn()),
+      (N, 'checkSum := sha256.Sum256(cert.Raw)', 'checkSum := sha256.Sum256(cert.RawTBSCertificate)')]),
+ # T9 (extract-helper / index vs range loop / preallocated result): the thumbprint list
+ thumbs('thumbprints-by-helper', 'silent'),
+ thumbs('thumbprints-by-helper-range-value', 'silent', loop='for _, cert := range certChain', elem='cert.Raw'),
+ thumbs('thumbprints-by-helper-for-loop', 'silent', loop='for i := 0; i < len(certChain); i++'),
+ thumbs('thumbprints-by-helper-presized', 'silent', init='thumbprints := make([]string, 0, len(certChain))'),
+ thumbs('thumbprints-by-helper-of-tbs', 'flagged(annotations/thumbprints)', elem='certChain[i].RawTBSCertificate'),
+ thumbs('thumbprints-by-helper-leaf-only', 'flagged(annotations/thumbprints)', arg='signerInfo.CertificateChain[:1]'),
+ thumbs('thumbprints-by-helper-first-certificate-repeated', 'flagged(annotations/thumbprints)', loop='for range certChain', elem='certChain[0].Raw'),
+ thumbs('thumbprints-by-helper-skips-leaf', 'flagged(annotations/thumbprints)', loop='for i := 1; i < len(certChain); i++'),
+ dict(name='thumbprints-preallocated', file=N, expect='silent', find=THUMB_LOOP, replace=prealloc()),
+ dict(name='thumbprints-preallocated-one-slot', file=N, expect='flagged(annotations/thumbprints)', find=THUMB_LOOP, replace=prealloc(put='thumbprints[0] = hex.EncodeToString(checkSum[:])\n\t\t_ = i')),
+ dict(name='thumbprints-computed-but-other-list-marshalled', file=N, expect='flagged(annotations/thumbprints)',
+      find='\tval, err := json.Marshal(thumbprints)\n', replace='\tval, err := json.Marshal(thumbprints[:0])\n'),
+]
+
+def check_key_desc_fn(look='target.Annotations[key]'):
+    return '''func checkMetadataKey(key string, target ocispec.Descriptor) error {
+	for _, reservedPrefix := range reservedAnnotationPrefixes {
+		if strings.HasPrefix(key, reservedPrefix) {
+			return fmt.Errorf("error adding user metadata: metadata key %%v has reserved prefix %%v", key, reservedPrefix)
+		}
+	}
+	if _, ok := %s; ok {
+		return fmt.Errorf("error adding user metadata: metadata key %%v is already present in the target artifact", key)
+	}
+	return nil
+}
+''' % look
+
+VARIANTS += [
+ # T4b (parameter widened): the pair validator is handed the whole descriptor
+ dict(name='merge-key-validator-helper-handed-descriptor', expect='silent', edits=[(N, RESERVED_LOOP + EXISTING, CHECK_KEY_CALL % ('k', 'desc')), with_fn(check_key_desc_fn())]),
+ dict(name='merge-key-validator-helper-handed-empty-descriptor', expect='flagged(merge/existing-key)',
+      edits=[(N, RESERVED_LOOP + EXISTING, CHECK_KEY_CALL % ('k', 'ocispec.Descriptor{MediaType: desc.MediaType}')), with_fn(check_key_desc_fn())]),
+ dict(name='merge-key-validator-helper-handed-descriptor-after-replacement', expect='flagged(merge/)',
+      edits=[(N, RESERVED_LOOP + EXISTING, '\t\tdesc.Annotations = annotations\n' + CHECK_KEY_CALL % ('k', 'desc')), with_fn(check_key_desc_fn())]),
+]
+
+# the examination of the pairs cut out into a helper that is handed the metadata map
+def examiner_fn(pre='', inloop='', present='present'):
+    return '''func checkUserMetadata(logger log.Logger, userMetadata, present map[string]string) error {
+%s	for k, v := range userMetadata {
+		logger.Debugf("Adding metadata %%v=%%v to annotations", k, v)
+		for _, reservedPrefix := range reservedAnnotationPrefixes {
+			if strings.HasPrefix(k, reservedPrefix) {
+				return fmt.Errorf("error adding user metadata: metadata key %%v has reserved prefix %%v", k, reservedPrefix)
+			}
+		}
+		if _, ok := %s[k]; ok {
+			return fmt.Errorf("error adding user metadata: metadata key %%v is already present in the target artifact", k)
+		}
+%s	}
+	return nil
+}
+''' % (pre, present, inloop)
+
+def examiner(name, expect, call='\tif err := checkUserMetadata(logger, userMetadata, desc.Annotations); err != nil {\n\t\treturn desc, err\n\t}\n', bulk=BULK_COPY, **kw):
+    body = call + MAKE_LINE + COPY_LOOP + bulk + TAIL
+    return dict(name=name, expect=expect, edits=[imp('maps'), (N, MERGE_BODY, body), with_fn(examiner_fn(**kw))])
+
+KEEP_MAPS = '\t_ = maps.Copy[map[string]string, map[string]string]\n'
+
+VARIANTS += [
+ # T7b (extract-helper at another boundary): the examining loop in a helper, the pairs taken over in bulk after it succeeded
+ examiner('merge-examination-in-helper', 'silent'),
+ examiner('merge-examination-in-helper-then-copy-loop', 'silent', bulk=BULK_LOOP + KEEP_MAPS),
+ examiner('merge-examination-in-helper-empty-shortcut', 'silent', pre='\tif len(userMetadata) == 0 {\n\t\treturn nil\n\t}\n'),
+ examiner('merge-examination-in-helper-verdict-ignored', 'flagged(merge/fresh-union)',
+          call='\tif err := checkUserMetadata(logger, userMetadata, desc.Annotations); err != nil {\n\t\tlogger.Warn(err)\n\t}\n'),
+ examiner('merge-examination-in-helper-left-early', 'flagged(merge/fresh-union)', inloop='\t\tif v == "" {\n\t\t\tbreak\n\t\t}\n'),
+ examiner('merge-examination-in-helper-small-sets-only', 'flagged(merge/fresh-union)', pre='\tif len(userMetadata) > 8 {\n\t\treturn nil\n\t}\n'),
+ examiner('merge-examination-in-helper-handed-metadata-twice', 'flagged(merge/existing-key)',
+          call='\tif err := checkUserMetadata(logger, userMetadata, userMetadata); err != nil {\n\t\treturn desc, err\n\t}\n'),
+ examiner('merge-examination-in-helper-looks-up-value', 'flagged(merge/existing-key)', present='map[string]string{v: k}'),
+]
+
+VARIANTS += [
+ # "nothing yet" is the right list only where the loop over the chain is entered
+ thumbs('thumbprints-by-helper-dropped-for-long-chains', 'flagged(annotations/thumbprints)', init='if len(certChain) > 4 {\n\t\treturn nil\n\t}\n\tvar thumbprints []string'),
+ dict(name='thumbprints-dropped-for-long-chains', file=N, expect='flagged(annotations/thumbprints)',
+      find='\tval, err := json.Marshal(thumbprints)\n', replace='\tif len(thumbprints) > 4 {\n\t\tthumbprints = nil\n\t}\n\tval, err := json.Marshal(thumbprints)\n'),
+]
